@@ -129,4 +129,27 @@ def gen_search_glue():
     yield "SearchGlue.lean", t
 
 
-ALL = [gen_search_consts, gen_search_glue]
+def gen_search_aliases():
+    """the deprecated camelCase / BS3 aliases of the search methods: (old name, the method `getattr(self, new_name)` resolves at
+    call time), read from the closures of the live alias functions"""
+    from bs4.element import PageElement, Tag
+    rows = []
+    for cls in (PageElement, Tag):
+        for attr, f in vars(cls).items():
+            code = getattr(f, "__code__", None)
+            if code is None or code.co_name != "alias" or not f.__closure__:
+                continue
+            cells = dict(zip(code.co_freevars, (c.cell_contents for c in f.__closure__)))
+            new = cells.get("new_name")
+            if isinstance(new, str) and (new.startswith("find") or str(cells.get("old_name", "")).startswith(("find", "fetch"))):
+                rows.append((attr, str(cells.get("old_name")), new))
+    rows.sort()
+    q = lambda x: '"' + x + '"'
+    t = HEADER + "namespace BS.Gen.Search\n"
+    t += "/-- (attribute name, the old name the alias announces, the method it calls) for every deprecated alias of a search method -/\n"
+    t += "def c10Aliases : List (String × String × String) := [\n" + ",\n".join(f"  ({q(a)}, {q(o)}, {q(n)})" for a, o, n in rows) + "]\n"
+    t += "end BS.Gen.Search\n"
+    yield "SearchAliases.lean", t
+
+
+ALL = [gen_search_consts, gen_search_glue, gen_search_aliases]
